@@ -40,6 +40,10 @@ def params(draw, tier):
     # pose A may have a first polyline segment that is exactly axis-parallel (pixel-like data); pose B not
     if p["poseB"].get("rot_mode") == "snapchord":
         p["poseB"]["rot_mode"] = "zero"
+    if draw(st.integers(0, 3)) == 0:
+        p["poseA"]["rot_mode"] = "snapchord"
+        p["poseA"]["snap_end"] = draw(st.integers(0, 10 ** 6))
+        p["poseA"]["snap_k"] = draw(st.integers(0, 3))
     # make sure the transform between the poses is usually far from the identity
     p["poseB"]["logscale"] = draw(st.sampled_from([-3.0, -1.5, -0.5, 0.0, 0.7, 2.0, 3.0]))
     if draw(st.integers(0, 9)) < 6:
